@@ -64,9 +64,14 @@ def status_read(year, status):
     return {'i:1040.filing_status': {'enum': scenario.status_name(year, status)}}
 
 
-def outcome_matches(kind, val, want):
+def outcome_matches(kind, val, want, driver_value=None):
     if want in ('value', 'ni'):
         return kind == want
+    if want == 'own':
+        # the line passes its driver through (e.g. own total of interest)
+        return kind == 'value' and isinstance(val, (int, float)) and abs(float(val) - float(driver_value)) <= 0.005
+    if isinstance(want, float):
+        return kind == 'value' and isinstance(val, (int, float)) and not isinstance(val, bool) and abs(float(val) - want) <= 0.005
     return kind == 'value' and val is want
 
 
@@ -151,7 +156,7 @@ def check_triple(ctx, entry, year, status, amount, draw):
         for off, key in ((-0.01, 'below'), (0.0, 'at'), (0.01, 'above')):
             kind, val = evaluate(year, line, dict(base_reads, **{drv: round(float(amount) + off, 2)}), draw)
             seen.append((key, kind, val))
-            if not outcome_matches(kind, val, probe[key]):
+            if not outcome_matches(kind, val, probe[key], round(float(amount) + off, 2)):
                 ok = False
         if not ok:
             # locate where the code actually flips, for the message
